@@ -8,7 +8,7 @@ DATA = os.path.join(os.path.dirname(os.path.dirname(os.path.abspath(__file__))),
 
 
 def get_jobs(arch="simple", M=12, KN=8, metrics=("ENERGY", "LATENCY"), glb_size=8 * 64, glb_throughput=8, imperfect=False, n_einsums=1,
-             max_fused_loops=None):
+             max_fused_loops=None, throughputs=None):
     import accelforge as af
     from accelforge.frontend.spec import Spec
     from accelforge.mapper import Metrics
@@ -18,6 +18,10 @@ def get_jobs(arch="simple", M=12, KN=8, metrics=("ENERGY", "LATENCY"), glb_size=
     arch_p = af.examples.arches.simple if arch == "simple" else os.path.join(DATA, "a3.yaml")
     spec = Spec.from_yaml(arch_p, af.examples.workloads.basic.matmuls,
                           jinja_parse_data={"N_EINSUMS": n_einsums, "M": M, "KN": KN, "GlobalBufferSize": glb_size, "GlobalBufferThroughput": glb_throughput})
+    for node in spec.arch.nodes:
+        if throughputs and node.name in throughputs:
+            for action in node.actions:
+                action.throughput = throughputs[node.name]
     m = Metrics(0)
     for x in metrics:
         m |= Metrics[x]
